@@ -617,7 +617,15 @@ func init() {
 // NotFound. For every write of a dynamic object that is guarded by IsNotFound(e): every feasible
 // source of e is the error of a Get on a reader that is not the watch cache.
 
-func (p *Program) feasibleSources(v ssa.Value, pol bool, callee string, depth int) []ssa.Value {
+// feasibleSources: the values that can be the tested error v where callee(v) == pol is known.
+// known are the facts that hold where v is tested (nil at a nested merge: the facts of the edge the
+// outer merge was entered through take their place). An incoming edge of a merge is dropped when
+// what is known on that edge says the predicate answers the opposite for the value it carries:
+// the predicate was tested on it with the other outcome, the value is a lookup answer that is nil
+// there (`if err != nil { err = second() }; if err != nil && IsNotFound(err)`: the first answer
+// reaches the merge only as nil, and IsNotFound(nil) is false), or a sibling merge of the same block
+// known at the test rules the edge out (phiEdgeExcluded).
+func (p *Program) feasibleSources(v ssa.Value, pol bool, callee string, known []Fact, depth int) []ssa.Value {
 	v = stripConv(v)
 	ph, ok := v.(*ssa.Phi)
 	if !ok || depth > 4 {
@@ -625,7 +633,7 @@ func (p *Program) feasibleSources(v ssa.Value, pol bool, callee string, depth in
 			var out []ssa.Value
 			for _, pv := range p.possibleValues(v) {
 				if pv != v {
-					out = append(out, p.feasibleSources(pv, pol, callee, depth+1)...)
+					out = append(out, p.feasibleSources(pv, pol, callee, nil, depth+1)...)
 				} else {
 					out = append(out, pv)
 				}
@@ -633,6 +641,10 @@ func (p *Program) feasibleSources(v ssa.Value, pol bool, callee string, depth in
 			return out
 		}
 		return []ssa.Value{v}
+	}
+	knownSet := factSet{}
+	for _, f := range known {
+		knownSet[f.key] = f
 	}
 	var out []ssa.Value
 	blk := ph.Block()
@@ -643,7 +655,8 @@ func (p *Program) feasibleSources(v ssa.Value, pol bool, callee string, depth in
 		}
 		// infeasible if the edge already knows callee(e) == !pol
 		infeasible := false
-		for _, f := range p.FactsOnEdge(blk.Preds[i], blk) {
+		ef := p.FactsOnEdge(blk.Preds[i], blk)
+		for _, f := range ef {
 			call, _ := asCall(f.Cond)
 			if call == nil || calleeName(call.Common()) != callee || len(call.Common().Args) != 1 {
 				continue
@@ -652,14 +665,39 @@ func (p *Program) feasibleSources(v ssa.Value, pol bool, callee string, depth in
 				infeasible = true
 			}
 		}
-		if isNilConst(stripConv(e)) && pol {
+		if pol && isNilConst(stripConv(e)) {
 			infeasible = true // IsNotFound(nil) is false
 		}
+		if pol && !infeasible && p.nilnessFromFacts(ef, e) == yesTri && p.onlyLookupAnswers(e) {
+			// a lookup's answer that arrives here only as nil said "found": it cannot be what the
+			// NotFound test saw. (Kept to lookups on purpose: a variable that also receives the error
+			// of some other operation — a write placed between the lookup and the decision — is
+			// still reported as not being a lookup answer, as before.)
+			infeasible = true
+		}
+		if !infeasible && phiEdgeExcluded(blk, i, knownSet) {
+			infeasible = true
+		}
 		if !infeasible {
-			out = append(out, p.feasibleSources(e, pol, callee, depth+1)...)
+			out = append(out, p.feasibleSources(e, pol, callee, ef, depth+1)...)
 		}
 	}
 	return out
+}
+
+// onlyLookupAnswers: every value that can flow into v is the error of a Reader.Get (cache or not).
+func (p *Program) onlyLookupAnswers(v ssa.Value) bool {
+	vals := p.possibleValues(v)
+	if len(vals) == 0 {
+		return false
+	}
+	for _, pv := range vals {
+		call, _ := asCall(pv)
+		if call == nil || !isReaderGet(call.Common()) {
+			return false
+		}
+	}
+	return true
 }
 
 func createOnlyAfterUncachedNotFoundRule(c *Ctx) {
@@ -695,7 +733,7 @@ func createOnlyAfterUncachedNotFoundRule(c *Ctx) {
 		var bad []string
 		for _, nf := range nfs {
 			var b []string
-			srcs := p.feasibleSources(nf.Common().Args[0], true, "IsNotFound", 0)
+			srcs := p.feasibleSources(nf.Common().Args[0], true, "IsNotFound", fs, 0)
 			if len(srcs) == 0 {
 				b = append(b, "no feasible source of the tested error")
 			}
